@@ -105,6 +105,13 @@ func (s *state) ProcessDescriptor(desc SegmentationDescriptor) ([]SegmentationDe
 			}
 		}
 	}
+	// the received list only remembers the last few signal times: a descriptor
+	// that is still open is a duplicate however long ago it was received
+	for _, d := range s.open {
+		if desc.Equal(d) {
+			return nil, gots.ErrSCTE35DuplicateDescriptor
+		}
+	}
 	if !descAdded {
 		s.received[s.receivedHead] = &receivedElem{pts: pts, descs: []SegmentationDescriptor{desc}}
 		s.receivedHead = (s.receivedHead + 1) % receivedRingLen
